@@ -104,6 +104,9 @@ def run_unit(unit):
         res.violation(sig, clause, oc, dict(unit=unit, schedule=schedule), f"schedule={schedule} {detail}")
     res.sample(dict(harness=hid, threads=[repr(o) for o in HARNESSES[hid][3]], preemption_bound=bound,
                     schedules=out["execs"], distinct_outcomes=len(out["outcomes"])))
+    # every execution compiled a fresh class family that the library's lru_caches pin: release between units (never inside
+    # one - a cold cache changes which lines a replayed prefix executes)
+    core.release_caches()
     return res
 
 
